@@ -60,7 +60,7 @@ class C08(Prop):
 
     def rule(self):
         return ("DFDEC ops for every df! of the regenerated table: all 2^w patterns for w <= 10 (thorough: <= 16), "
-                "otherwise 0, all-ones, both sign boundaries, every one-hot and one-cold pattern and seeded random "
+                "otherwise 0, all-ones, both sign boundaries, every one-hot and one-cold pattern, every pattern with two set bits, every run of ones, 3-bit patterns (sampled; thorough: all), each with +-1 / complement / negation, literals of the sources, and seeded random "
                 "patterns (quick 150, thorough 4000 per field). Oracle on the real code: decode consumes exactly w "
                 "bits, decoded value finite, encode(decode(p)) = p except that the sign-magnitude negative zero "
                 "re-encodes as 0, exactly the inv pattern decodes to absent. The hand-written numeric fields (bias_m of "
